@@ -948,13 +948,98 @@ def translate_function(fn: ast.FunctionDef, spec, signatures, constants, t9):
              t9_lines=t9 if fn.name == "create_dummy_in_mem_geff" else None, nested=nested)
     tr.ret = spec["ret"]
     body: list[str] = []
-    tr.block(fn.body, body, "  ", top=True)
+    if fn.name == "create_dummy_in_mem_geff":
+        # every top-level `if` paragraph of the source becomes a definition of its own (`blockX`): the
+        # variables of the enclosing function it reads are parameters, those it changes are returned
+        stmts = [s for s in fn.body]
+        k = 0
+        seen_blocks: set[str] = set()
+        while k < len(stmts):
+            s = stmts[k]
+            in_t9 = t9 and t9[0] <= s.lineno < t9[1]
+            if isinstance(s, ast.If) and not in_t9:
+                defs.append(paragraph(s, tr, cls, body, seen_blocks))
+                k += 1
+                continue
+            j = k + 1
+            if in_t9:
+                while j < len(stmts) and t9[0] <= stmts[j].lineno < t9[1]:
+                    j += 1
+            tr.block(stmts[k:j], body, "  ", top=(j == len(stmts)))
+            k = j
+    else:
+        tr.block(fn.body, body, "  ", top=True)
     if fn.name == "create_dummy_in_mem_geff" and not any("Gen.MockEdges.gen" in b for b in body):
         raise Unsupported("the edge loops of translator T9 were not met in the body")
     params = " ".join(f"({camel(p)} : {t})" for p, t in spec["params"])
     head = f"def {spec['lean']} (emptyVlenOk : Bool) {params} : Outcome ({spec['ret']}) := do"
     defs.append(f"/-- `{fn.name}` ({SRC}:{fn.lineno}) -/\n" + "\n".join([head, *body]))
     return defs
+
+
+def _mutated_names(stmt, nested) -> list[str]:
+    out: list[str] = []
+
+    def add(x):
+        if x not in out:
+            out.append(x)
+    for n in ast.walk(stmt):
+        if isinstance(n, ast.Assign):
+            if isinstance(n.value, ast.Call) and isinstance(n.value.func, ast.Name) and n.value.func.id in nested:
+                for m in nested[n.value.func.id]["mutated"]:
+                    add(m)
+            for t in n.targets:
+                for x in ([t] if not isinstance(t, ast.Tuple) else t.elts):
+                    if isinstance(x, ast.Name):
+                        add(x.id)
+                    elif isinstance(x, ast.Subscript) and isinstance(x.value, ast.Name):
+                        add(x.value.id)
+        elif isinstance(n, (ast.AugAssign, ast.AnnAssign)) and isinstance(n.target, ast.Name):
+            add(n.target.id)
+        elif isinstance(n, ast.Call) and isinstance(n.func, ast.Attribute) and n.func.attr == "append" \
+                and isinstance(n.func.value, ast.Name):
+            add(n.func.value.id)
+    return out
+
+
+def paragraph(s: ast.If, tr, cls, body, seen) -> str:
+    """a top-level `if` statement of `create_dummy_in_mem_geff` as a definition of its own; appends the
+    call (and the re-assignment of the changed variables) to `body`"""
+    first = next((n.id for n in ast.walk(s.test) if isinstance(n, ast.Name)), None)
+    if first is None:
+        raise Unsupported(f"paragraph at line {s.lineno}: no variable in its condition")
+    c = _camel(first)
+    lean = "block" + c[0].upper() + c[1:]
+    if lean in seen:
+        raise Unsupported(f"two paragraphs are conditioned on {first}")
+    seen.add(lean)
+    used = {n.id for n in ast.walk(s) if isinstance(n, ast.Name)}
+    for n in ast.walk(s):
+        if isinstance(n, ast.Call) and isinstance(n.func, ast.Name) and n.func.id in tr.nested:
+            used |= set(tr.nested[n.func.id]["closure"])
+    mutated = [m for m in _mutated_names(s, tr.nested) if m in tr.env]
+    params = [(v, t) for v, t in tr.env.items() if v in used or v in mutated]
+    sub = cls(params, signatures=tr.signatures, constants=tr.constants, nested=tr.nested)
+    lines: list[str] = []
+    for m in mutated:
+        lines.append(f"  let mut {camel(m)} : {tr.env[m]} := {camel(m)}")
+    sub.block([s], lines, "  ")
+    lines.append("  return (" + ", ".join(camel(m) for m in mutated) + ")")
+    if not mutated:
+        raise Unsupported(f"paragraph at line {s.lineno} changes nothing")
+    ret = " × ".join((f"({tr.env[m]})" if " " in tr.env[m] else tr.env[m]) for m in mutated)
+    head = (f"def {lean} (emptyVlenOk : Bool) " + " ".join(f"({camel(v)} : {t})" for v, t in params)
+            + f" : Outcome ({ret}) := do")
+    t = tr.fresh()
+    body.append(f"  let {t} ← {lean} emptyVlenOk " + " ".join(camel(v) for v, _ in params))
+    if len(mutated) == 1:
+        body.append(f"  {camel(mutated[0])} := {t}")
+    else:
+        for k, m in enumerate(mutated):
+            proj = t + ".2" * k + (".1" if k < len(mutated) - 1 else "")
+            body.append(f"  {camel(m)} := {proj}")
+    return (f"/-- the paragraph `if {ast.unparse(s.test)[:60]}:` of `create_dummy_in_mem_geff` ({SRC}:{s.lineno}); "
+            f"reads {[v for v, _ in params]}, returns {mutated} -/\n" + "\n".join([head, *lines]))
 
 
 def stub(spec) -> str:
